@@ -129,3 +129,56 @@ def run_for(prop, S, outdir, rebaseline=False):
         results.append(Result("frame/mint/audited", "F", "verified", "", 0, meta))
     info = {"unit": "engine_f", "engine": "frame audit (vx inventory)", "cmd": "inventory of mark_safe( / safe_string( / StringKind::Safe per function of the expanded source vs contracts/mint_points.json", "wall_s": 0.0, "smt_s": 0.0, "trusted": [], "functions": sorted(inv), "assumptions": ["engine F: the audited mint sites (contracts/mint_points.json) were judged by reading, not proved: " + ", ".join(sorted(audited))]}
     return results, [info]
+
+
+PAIR = {"ApplyFilter": "filter_calls", "RunTest": "test_calls", "CallFunction": "function_calls", "Include": "include_calls", "RenderInlineComponent": "component_calls", "RenderBodyComponent": "component_calls"}
+PAIR_PROPS = ["C07", "C11"]
+
+
+def run_pairs(prop, S, outdir):
+    """every site of the compiler that emits an instruction naming a filter / test / function / include /
+    component also records that name in the call table registration-time validation reads: the match arm
+    around the emit site mentions `self.<table>` itself or calls a Compiler method that does"""
+    from driver import Result
+
+    if prop not in PAIR_PROPS + ["ALL"]:
+        return [], []
+    meta = {"unit": "engine_f", "props": PAIR_PROPS, "what": "instructions that name a filter/test/function/include/component are emitted together with a record in the call table that validation reads"}
+    ob = "frame/calls/recorded_where_emitted"
+    try:
+        comp = S("tera/src/parsing/compiler.rs")
+        fns = [f for f in comp.items if f["kind"] == "fn"]
+        helpers = {t: {f["path"].split("::")[-1] for f in fns if re.search(r"self\s*\.\s*" + t + r"\b", comp.text(*f["range"]))} for t in set(PAIR.values())}
+        sites, bad = 0, []
+        for f in fns:
+            for m in f["nodes"]:
+                if not (m["kind"] == "methodcall" and m["method"] == "add" and m["receiver_text"].endswith("chunk") and m["args"]):
+                    continue
+                k = re.match(r"\s*Instruction::(\w+)", comp.text(*m["args"][0]["range"]))
+                if not k or k.group(1) not in PAIR:
+                    continue
+                sites += 1
+                table = PAIR[k.group(1)]
+                # nearest enclosing match arm (else the whole function)
+                scope = f["range"]
+                p = m["parent"]
+                while p is not None and p >= 0:
+                    pn = f["nodes"][p]
+                    if pn["kind"] == "arm":
+                        scope = pn["range"]
+                        break
+                    p = pn["parent"]
+                txt = comp.text(*scope)
+                ok = re.search(r"self\s*\.\s*" + table + r"\b", txt) or any(re.search(r"self\s*\.\s*" + h + r"\s*\(", txt) for h in helpers[table] if h != f["path"].split("::")[-1])
+                if not ok:
+                    bad.append((k.group(1), table, f["path"], comp.text(0, m["range"][0]).count("\n") + 1))
+    except Exception as e:  # noqa: BLE001
+        return [Result(ob, "F", "undecided", f"inventory failed: {e}", 0, meta)], []
+    if sites < 5:
+        res = Result(ob, "F", "undecided", f"vacuity guard: only {sites} emit sites found", 0, meta)
+    elif bad:
+        res = Result(ob, "F", "false", "emitted without a record in the call table (validation at registration cannot see this name; an unknown one reaches render time): " + ", ".join(f"Instruction::{k} without self.{t} in {fn} (line {ln})" for k, t, fn, ln in bad), 0, dict(meta, fn=bad[0][2]))
+    else:
+        res = Result(ob, "F", "verified", "", 0, meta)
+    info = {"unit": "engine_f_pairs", "engine": "frame audit (vx inventory)", "cmd": f"{sites} emit sites of {sorted(PAIR)} in parsing/compiler.rs, each checked for a record in its call table within the enclosing match arm (directly or through a Compiler method that writes the table)", "wall_s": 0.0, "smt_s": 0.0, "trusted": [], "functions": ["parsing::compiler::Compiler::*"], "assumptions": ["engine F (calls): a syntactic pairing; that the recorded NAME is the emitted name, and what validation then does with the table, are not judged here (units tpl_merge, include_walk)"]}
+    return [res], [info]
